@@ -366,6 +366,180 @@ func main() {
 }
 `, w, n, n)
 	}},
+	{"atomic-counters", func(w, n int) string {
+		return "package main\n\nimport (\n\t\"fmt\"\n\t\"sync\"\n\t\"sync/atomic\"\n)\n\n" + fmt.Sprintf(`func main() {
+	var total int64
+	var max int64
+	var wg sync.WaitGroup
+	for i := 0; i < %d; i++ {
+		wg.Add(1)
+		go func(id int64) {
+			defer wg.Done()
+			for k := int64(0); k < %d; k++ {
+				v := atomic.AddInt64(&total, id+k)
+				_ = v
+				for {
+					m := atomic.LoadInt64(&max)
+					if id*1000+k <= m || atomic.CompareAndSwapInt64(&max, m, id*1000+k) {
+						break
+					}
+				}
+			}
+		}(int64(i))
+	}
+	wg.Wait()
+	fmt.Println("atomic", atomic.LoadInt64(&total), atomic.LoadInt64(&max))
+}
+`, w, n)
+	}},
+	{"rwmutex-readers-writers", func(w, n int) string {
+		return c08Head + fmt.Sprintf(`type Store struct {
+	mu sync.RWMutex
+	m  map[int]int
+}
+
+func (s *Store) Get(k int) (int, bool) {
+	s.mu.RLock()
+	defer s.mu.RUnlock()
+	v, ok := s.m[k]
+	return v, ok
+}
+
+func (s *Store) Add(k, d int) {
+	s.mu.Lock()
+	s.m[k] += d
+	s.mu.Unlock()
+}
+
+func main() {
+	st := &Store{m: map[int]int{}}
+	var wg sync.WaitGroup
+	reads := make([]int, %d)
+	for i := 0; i < %d; i++ {
+		wg.Add(1)
+		go func(id int) {
+			defer wg.Done()
+			for k := 0; k < %d; k++ {
+				if id%%2 == 0 {
+					st.Add(k%%5, id+1)
+				} else if _, ok := st.Get(k %% 5); ok || !ok {
+					reads[id]++
+				}
+			}
+		}(i)
+	}
+	wg.Wait()
+	sum, nr := 0, 0
+	for k := 0; k < 5; k++ {
+		v, _ := st.Get(k)
+		sum += v * (k + 1)
+	}
+	for _, r := range reads {
+		nr += r
+	}
+	fmt.Println("rw", sum, nr)
+}
+`, w, w, n)
+	}},
+	{"once-semaphore-and-recovered-panics", func(w, n int) string {
+		return c08Head + fmt.Sprintf(`var once sync.Once
+var table []int
+
+func setup() {
+	for i := 0; i < 8; i++ {
+		table = append(table, i*i)
+	}
+}
+
+func work(id, k int) (res int, err error) {
+	defer func() {
+		if r := recover(); r != nil {
+			err = fmt.Errorf("worker %%d: %%v", id, r)
+		}
+	}()
+	once.Do(setup)
+	if (id+k)%%7 == 0 {
+		var m map[string]int
+		m["x"] = 1
+	}
+	if (id+k)%%11 == 0 {
+		panic(fmt.Sprint("boom ", id+k))
+	}
+	return table[(id+k)%%8], nil
+}
+
+func main() {
+	sem := make(chan struct{}, 3)
+	var mu sync.Mutex
+	var wg sync.WaitGroup
+	sum, nerr, inflight, maxInflight := 0, 0, 0, 0
+	for i := 0; i < %d; i++ {
+		for k := 0; k < %d; k++ {
+			wg.Add(1)
+			sem <- struct{}{}
+			go func(id, k int) {
+				defer wg.Done()
+				defer func() { <-sem }()
+				mu.Lock()
+				inflight++
+				if inflight > maxInflight {
+					maxInflight = inflight
+				}
+				mu.Unlock()
+				r, err := work(id, k)
+				mu.Lock()
+				inflight--
+				if err != nil {
+					nerr++
+				} else {
+					sum += r
+				}
+				mu.Unlock()
+			}(i, k)
+		}
+	}
+	wg.Wait()
+	fmt.Println("once", sum, nerr, maxInflight <= 3, len(table))
+}
+`, w, n/4+1)
+	}},
+	{"goroutine-tree-with-result-channels", func(w, n int) string {
+		return c08Head + fmt.Sprintf(`type Node struct {
+	val         int
+	left, right *Node
+}
+
+func build(d, v int) *Node {
+	if d == 0 {
+		return nil
+	}
+	return &Node{v, build(d-1, 2*v), build(d-1, 2*v+1)}
+}
+
+func sum(n *Node, out chan<- int) {
+	if n == nil {
+		out <- 0
+		return
+	}
+	l, r := make(chan int), make(chan int)
+	go sum(n.left, l)
+	go func() { sum(n.right, r) }()
+	out <- n.val + <-l + <-r
+}
+
+func main() {
+	res := make(chan int)
+	total := 0
+	for i := 0; i < %d; i++ {
+		go sum(build(%d%%4+3, i+1), res)
+	}
+	for i := 0; i < %d; i++ {
+		total += <-res
+	}
+	fmt.Println("tree", total)
+}
+`, w%9+2, n, w%9+2)
+	}},
 	{"closures-sharing-a-mutex-protected-variable", func(w, n int) string {
 		return c08Head + fmt.Sprintf(`func main() {
 	var mu sync.Mutex
@@ -791,7 +965,7 @@ func c01Program(idx uint64) string {
 }
 
 func checkC08(r *core.Run) {
-	r.Rule = "cell = (workload, goroutine count, GOMAXPROCS, yield pattern, repetition), run in a child built with the race detector (GORACE halt_on_error=0, reports read from the log after each cell). Workloads: nine schedule-independent script templates (pipeline, fan-out/fan-in pool, per-worker private channels in the same select statement, mutex-protected counter and map, producer/consumer with close and range, go statements whose arguments are reassigned right after, range over per-worker channels, ring of select nodes mixing send / receive / quit, closures sharing mutex-protected variables), compared with the gc binary of the same source; N host goroutines calling the same exported recursive function (locals, closures, defer, sort callback, select) with distinct arguments, compared with a native twin; Put/Get/CAS on a script-side mutex-protected map called from host goroutines, history checked for linearizability (porcupine, partitioned by key); N interpreters running different generated programs in parallel, each compared with its own sequential output. The step hook yields with probability 0, 1/64 or 1/4 per interpreted operation. Verdict: no race report, expected output, no error. non-trivial = the cell executed interpreted operations in more than one goroutine"
+	r.Rule = "cell = (workload, goroutine count, GOMAXPROCS, yield pattern, repetition), run in a child built with the race detector (GORACE halt_on_error=0, reports read from the log after each cell). Workloads: thirteen schedule-independent script templates (pipeline, fan-out/fan-in pool, per-worker private channels in the same select statement, mutex-protected counter and map, producer/consumer with close and range, go statements whose arguments are reassigned right after, range over per-worker channels, ring of select nodes mixing send / receive / quit, closures sharing mutex-protected variables, sync/atomic counters with compare-and-swap loops, RWMutex readers and writers, sync.Once with a buffered-channel semaphore and panics recovered inside goroutines, a recursive goroutine tree with per-node result channels), compared with the gc binary of the same source; N host goroutines calling the same exported recursive function (locals, closures, defer, sort callback, select) with distinct arguments, compared with a native twin; Put/Get/CAS on a script-side mutex-protected map called from host goroutines, history checked for linearizability (porcupine, partitioned by key); N interpreters running different generated programs in parallel, each compared with its own sequential output. The step hook yields with probability 0, 1/64 or 1/4 per interpreted operation. Verdict: no race report, expected output, no error. non-trivial = the cell executed interpreted operations in more than one goroutine"
 	r.Assume = []string{"the scripts are data-race-free by construction, so a race report is attributed to the interpreter", "the race detector reports a given pair of stacks once per process: every cell runs in its own child"}
 	raceBin := os.Args[0] + ".race"
 	if _, err := os.Stat(raceBin); err != nil {
